@@ -5,10 +5,14 @@ import sys
 HERE = os.path.dirname(os.path.dirname(os.path.abspath(__file__)))
 sys.path.insert(0, HERE)
 
+from props import _identity  # noqa: E402
+
 ID = 'C13'
 LEVEL = 'exploration'
 SIDECARS = []
 FUNCTIONS = []
+SIDECARS = SIDECARS + [x for x in _identity.SIDECARS if x not in SIDECARS]
+FUNCTIONS = FUNCTIONS + [f for f in _identity.FUNCTIONS if f not in FUNCTIONS]
 TRUSTED = []
 ASSUMPTIONS = [
     'bounded stand-in only (labelled bounded, nothing is counted as proved): the pickle protocol is an external library; the '
